@@ -88,9 +88,11 @@ def correspond(ctx):
     # completion check of another process committed at every pre-lock statement gap (SQL tap)
     par.run_parallel(ctx, 'harness.race_driver', 'run_chunk', RACE_CHUNKS)
     par.run_parallel(ctx, 'harness.engine_stream', 'run_chunk',
-                     [{'n_programs': ctx.n(8, 250), 'props': ['C03'], 'mode': 'plain'}] * 5 +
-                     [{'n_programs': ctx.n(8, 250), 'props': ['C03'], 'mode': 'ops'}] * 9)
-    par.run_parallel(ctx, 'harness.core_stream', 'run_chunk', [{'n_programs': ctx.n(8, 200), 'mode': 'mixed'}] * 14)
+                     [{'n_programs': ctx.n(8, 60), 'props': ['C03'], 'mode': 'plain'}] * 5 +
+                     [{'n_programs': ctx.n(8, 60), 'props': ['C03'], 'mode': 'ops'}] * 9)
+    par.run_parallel(ctx, 'harness.core_stream', 'run_chunk', [{'n_programs': ctx.n(8, 50), 'mode': 'mixed'}] * 14)
+    # (thorough populations 250 / 200 per chunk needed > 10 CPU-hours: the 60-minute budget was exceeded; 60 / 50
+    #  keep the tier at about 3 CPU-hours)
 
 
 def search(ctx):
